@@ -342,6 +342,8 @@ fn apply_basic(w: &mut W15, op: &str) {
     }
 }
 
+fn forgot_or_pruned_ok(_op: &str) -> bool { true }
+
 pub struct C15;
 
 impl Group for C15 {
@@ -557,6 +559,7 @@ impl Group for C15 {
         let mut dead = false;
         let mut forgot_req: BTreeSet<u64> = BTreeSet::new(); // forget acknowledged for a ready channel
         let mut forgotten_max: u64 = 0; // highest id of an existing channel that was forgotten
+        let mut gone: BTreeSet<u64> = BTreeSet::new(); // forgotten stubs and pruned channels: must never come back
         let mut interesting = false;
         for (i, op) in ops.iter().enumerate() {
             if dead { co.out.push("dead".into()); continue; }
@@ -568,6 +571,7 @@ impl Group for C15 {
             }
             let wd = w.as_mut().expect("init first");
             let ready_before = wd.ready_set();
+            let existed_before: BTreeSet<u64> = (1..=NCH + 1).filter(|d| wd.has_channel(*d)).collect();
             let res: String = match t.as_slice() {
                 ["new", d] => {
                     let d: u64 = d.parse().unwrap();
@@ -642,6 +646,21 @@ impl Group for C15 {
                 co.out.push("panic".into());
                 continue;
             }
+            // monitor: a channel that was forgotten-and-removed or pruned never reappears (e.g. out of the store on restart)
+            if t[0] == "forget" || t[0] == "heartbeat" {
+                for d in 1..=NCH + 1 {
+                    if existed_before.contains(&d) && !wd.has_channel(d) && forgot_or_pruned_ok(t[0]) { gone.insert(d); }
+                }
+            }
+            if t[0] == "restart" {
+                for d in gone.iter() {
+                    if wd.has_channel(*d) {
+                        co.violations.push(Violation { kind: "forgotten-channel-resurrected".into(),
+                            desc: format!("channel {} had been removed (forgotten stub / pruned) and exists again after the restart", d), at: i });
+                    }
+                }
+            }
+            if t[0] == "new" { if let Ok(d) = t[1].parse::<u64>() { if wd.has_channel(d) { gone.remove(&d); } } }
             // monitor: ready channels disappear only when allowed
             let ready_after = wd.ready_set();
             for d in ready_before.difference(&ready_after) {
